@@ -80,8 +80,23 @@ def public_view(s):
     s = re.sub(r'^ret=\d ', '', s)
     return s
 
-PRED_PROP = {'canon': 'C08', 'rp': 'C02', 'lk': 'C06', 'own': 'C06', 'ser': 'C06', 'det': 'C06', 'ct': 'C09',
-             'inj': 'C17', 'shape': 'C17', 'rt': 'C17', 'fix': 'C17'}
+PRED_PROP = {'canon': 'C08', 'rp': 'C02', 'lk': 'C06', 'own': 'C06', 'ser': 'C06', 'det': 'C06', 'ct': 'C09', 'cp': 'C09',
+             'inj': 'C17', 'shape': 'C17', 'rt': 'C17', 'fix': 'C17', 'probe': 'C05'}
+# the properties about the runtime have their own observables: for them a difference between the library and the model
+# is a broken correspondence (the theorems no longer transfer), not a failing input of the property itself
+RUNTIME_KINDS = {'C04': ('crash',), 'C18': ('config',), 'C19': ('race', 'threads'), 'C20': ('fault',)}
+
+def is_failing_input_for(pid, kind):
+    """does a divergence of this kind exhibit a violation of property pid itself (then the replay is the failing
+    input), or only a break of the correspondence its theorems rest on (then: no-failing-input-found)?"""
+    k = kind.split(':')[0]
+    if kind == 'hypothesis': return False
+    if pid in RUNTIME_KINDS: return k in RUNTIME_KINDS[pid]
+    if k == 'pred':
+        owner = PRED_PROP.get(kind.split(':')[1])
+        # a false predicate of ANOTHER property is evidence against that one; for this one the correspondence broke
+        return owner is None or owner == pid or pid in ('C01', 'C03', 'C05') and owner in ('C02', 'C05', 'C08', 'C09')
+    return True
 
 def compare_line(op, cpp, lean):
     """returns list of (kind, detail). kinds: impl (C++ != model), spec (C++ != Standard), hidden (only hidden
@@ -222,7 +237,10 @@ def known_class(op, kind):
         ill = [u for u in map(us, encs8) if any(x > 255 for x in u) is False and bad_utf8(u)]
         if toks[2] in ('append', 'set', 'del', 'del2', 'remove', 'remove2', 'has', 'has2', 'getv', 'getall') and ill and kind in ('spec', 'pred:lk'):
             return 'F3'
-        if toks[2] in ('ctor', 'parse') and ill and kind == 'spec' and any(0x25 in u for u in ill):
+        # F4: a raw byte >= 0x80 directly before an escape, or an escape directly before a raw byte >= 0x80
+        def f4(u):
+            return any((u[i] >= 0x80 and u[i + 1] == 0x25) for i in range(len(u) - 1)) or any((u[i] == 0x25 and u[i + 3] >= 0x80) for i in range(len(u) - 3))
+        if toks[2] in ('ctor', 'parse') and kind == 'spec' and any(f4(u) for u in ill):
             return 'F4'
     if toks[0] == 'rt' and len(toks) == 4 and toks[1] == 'windows' and kind == 'pred:fix':
         import unicodedata
@@ -254,7 +272,13 @@ def main():
     def finish():
         ev['wall_s'] = round(time.time() - t0, 2)
         ev['violations'] = len(violations)
-        write_json(os.path.join(os.environ.get('VERIF_EVIDENCE_DIR', os.path.join(VERIF, 'evidence')), pid + '.json'), ev)
+        # a run that stopped before the obligations were counted still states them (none discharged)
+        cov.setdefault('obligations', 0); cov.setdefault('discharged', 0)
+        cov.setdefault('checker_cmd', 'cd lean && lake build %s' % ' '.join(cfg['modules']))
+        cov.setdefault('trusted_base', P.TRUSTED_BASE)
+        # a replay is not the property's evidence: it goes to its own file
+        evname = pid + ('.replay' if a.replay else '') + '.json'
+        write_json(os.path.join(os.environ.get('VERIF_EVIDENCE_DIR', os.path.join(VERIF, 'evidence')), evname), ev)
         if violations:
             rdir = os.path.join(os.environ.get('VERIF_REPLAY_DIR', os.path.join(VERIF, 'replays')), pid)
             os.makedirs(rdir, exist_ok=True)
@@ -314,8 +338,11 @@ def main():
             if rc != 0:
                 violations.append(('leanchecker', ['# leanchecker ' + m], out[-2000:], False))
         if violations: finish()
-    cov['obligations'] = len(thms) + len(cfg.get('gen_obligations', []))
-    cov['discharged'] = 0 if broken else cov['obligations']
+    # obligations = the theorems found in the property files; discharged = those for which `#print axioms` ran in
+    # this run and printed an accepted axiom set (both counted from this run's output). The regenerated facts
+    # (gen_obligations) are premises of some of these theorems, listed for the reader, not counted again.
+    cov['obligations'] = sum(len(theorems_of(m)) for m in modules)
+    cov['discharged'] = 0 if broken else sum(1 for n in thms if thms[n] is not None and set(thms[n]) <= OK_AXIOMS)
     cov['theorems'] = {n: thms[n] for n in sorted(thms)}
     cov['gen_obligations'] = cfg.get('gen_obligations', [])
     cov['checker_cmd'] = 'cd lean && lake build %s   # Lean 4.33 kernel; #print axioms per theorem; thorough: lake env leanchecker <module>' % ' '.join(modules)
@@ -348,6 +375,7 @@ def main():
     samples = []
     distinct = set()
     known_hits = {}
+    tainted = set()
     if lines:
         cpp, rc, err, lean = runner.run(lines)
         runner.main_steps = runner.last_steps
@@ -371,8 +399,14 @@ def main():
                 for ch, nm in (('a', 'ascii'), ('p', 'persist'), ('o', 'out_ascii'), ('i', 'idem')):
                     if ch in live: hl[nm] += 1
                 if 'hyp=0' in lean[i]: hl['false'] += 1
+            # an F3-class operation (char-typed ill-formed name / value stored raw) leaves the list — and the URL's
+            # query — in a state the Standard-shaped column cannot follow: the rest of the case stays in the class
+            # (the comparison with the code-shaped model stays in force)
+            if known_class(lines[i], 'spec') == 'F3': tainted.add(case_of[i][0])
+            if lines[i] == 'case': pass
             for (kind, detail) in res:
                 kf = known_class(lines[i], kind)
+                if not kf and case_of[i][0] in tainted and kind in ('spec', 'pred:lk'): kf = 'F3'
                 if kf:
                     known_hits[kf] = known_hits.get(kf, 0) + 1; continue
                 kinds[kind] = kinds.get(kind, 0) + 1
@@ -388,7 +422,9 @@ def main():
             if s0 in first_hid and first_hid[s0][0] < i:
                 detail += '\nhidden state had diverged before, at: %s (%s)' % (readable(lines[first_hid[s0][0]]), first_hid[s0][2][:300])
             small = shrink(runner, ls, i - s, kind)
-            violations.append((kind, small, '%s\n%s' % (kind, detail[:3000]), kind != 'hypothesis'))
+            fi = is_failing_input_for(pid, kind)
+            if not fi: detail += '\n(for property %s this is a break of the correspondence its theorems rest on, not an observed violation of the property itself)' % pid
+            violations.append((kind, small, '%s\n%s' % (kind, detail[:3000]), fi))
             seen_cases.add(s0)
         # pass 3: hidden state only (offsets / flags / segment count / params list / sorted flag), no public
         # divergence in that case: search for a public manifestation. Stale bookkeeping shows itself in a LATER
@@ -426,13 +462,33 @@ def main():
                     if r2: hit = (jj, r2[0], c2[jj]); break
                 if hit:
                     small = shrink(runner, aug[:hit[0] + 1], hit[0], hit[1])
-                    found = True
+                    found = is_failing_input_for(pid, hit[1])
                     detail += '\nhidden state diverged at: %s\npublic manifestation (%s): %s' % (readable(ls[i - s]), hit[1], hit[2][:300])
                     break
             if small is None:
                 small = shrink(runner, ls, i - s, kind)
                 detail += '\ncorrespondence (hidden state: offsets / flags / segment count / params list) no longer checks for operation: ' + readable(small[-1])
             violations.append((kind, small, '%s\n%s' % (kind, detail[:3000]), found))
+        if crash_at is None and rc != 0:
+            # complete transcript but a non-zero exit: LeakSanitizer (or another report) at process exit. Find the
+            # shortest prefix of cases that still leaks, then the case alone.
+            lo, hi = 0, len(cases)
+            def leaks(ls):
+                try:
+                    c2, rc2, err2, _ = runner.run(ls, need_model=False)
+                except Exception:
+                    return False
+                return rc2 != 0 and len(c2) >= len(ls)
+            budget = 24
+            while hi - lo > 1 and budget > 0:
+                mid = (lo + hi) // 2; budget -= 1
+                if leaks([l for (_, ls2) in cases[:mid] for l in ls2]): hi = mid
+                else: lo = mid
+            culprit = cases[hi - 1][1] if cases else lines
+            alone = leaks(culprit)
+            violations.append(('crash', culprit if alone else [l for (_, ls2) in cases[:hi] for l in ls2][-400:],
+                               'the harness answered every operation but exited with rc=%s: a sanitizer report at process exit (LeakSanitizer: memory leaked by one of these operations)\n%s' % (rc, err[-3000:]), True))
+            kinds['crash'] = kinds.get('crash', 0) + 1
         if crash_at is not None and crash_at < len(lines):
             s, ls = case_of[crash_at]
             small = shrink(runner, ls, crash_at - s, 'crash')
@@ -477,8 +533,36 @@ def main():
             print('KNOWN-FINDING: property=%s %s: %s' % (pid, f['id'], f.get('short', f['what'])))
         kcov.append({'id': f['id'], 'reproduced': reproduced, 'class_hits_in_streams': known_hits.get(f['id'], 0)})
     cov['known_findings'] = kcov
+    # divergences that fell into a listed finding's input class in this run, whatever the property (they are never
+    # reported as violations; for the properties the finding lists, the KNOWN-FINDING line above stands for them)
+    cov['known_class_divergences_suppressed'] = dict(sorted(known_hits.items()))
     cov['fixed_findings'] = [x for x in kf.get('fixed', []) if pid in x.get('properties', [])]
     finish()
 
 if __name__ == '__main__':
-    main()
+    try:
+        main()
+    except SystemExit:
+        raise
+    except BaseException as e:
+        # the check itself failed (a driver died, a time limit fired, …): the property was NOT shown to hold in this
+        # run. Say so in the interface's terms and do not leave an older evidence file standing.
+        import traceback
+        tb = traceback.format_exc()
+        sys.stderr.write(tb)
+        pid = ([a for i, a in enumerate(sys.argv) if i > 0 and sys.argv[i - 1] == '--property'] or ['unknown'])[0]
+        rdir = os.path.join(os.environ.get('VERIF_REPLAY_DIR', os.path.join(VERIF, 'replays')), pid)
+        os.makedirs(rdir, exist_ok=True)
+        path = os.path.join(rdir, 'check-error.ops')
+        with open(path, 'w') as f:
+            f.write('# property %s  kind check-error\n# the check did not complete: %s\n' % (pid, repr(e)[:500]))
+            for l in tb.split('\n'): f.write('# ' + l + '\n')
+        evp = os.path.join(os.environ.get('VERIF_EVIDENCE_DIR', os.path.join(VERIF, 'evidence')), pid + '.json')
+        try:
+            write_json(evp, {'property_id': pid, 'tier': os.environ.get('VERIF_TIER', 'quick') if os.environ.get('VERIF_TIER') in ('quick', 'thorough') else 'quick',
+                             'seed': int(os.environ.get('VERIF_SEED', '1')), 'level': P.PROPS.get(pid, {}).get('level', 'other'),
+                             'coverage': {'explanation': 'the check did not complete: ' + repr(e)[:300]}, 'wall_s': 0.0, 'violations': 1})
+        except Exception:
+            pass
+        print('VIOLATION property=%s replay=%s no-failing-input-found' % (pid, os.path.relpath(path, VERIF)))
+        sys.exit(1)
